@@ -20,11 +20,13 @@ def src_slices(p, src, func=None, since=0):
     for e in p.events:
         if e.seq <= since or e.kind != 'slice':
             continue
-        if func is not None and e.func != func:
+        if func is not None and not e.under(func):
             continue
         obj = e.data['obj']
         if not (isinstance(obj, SeqV) and len(obj.segs) == 1 and isinstance(obj.segs[0], Sl) and obj.segs[0].src is src):
             continue
+        if obj.kind != src.kind:
+            continue      # a slice of the decoded value (processing), not of the data being framed
         base = obj.segs[0].lo
         lo = e.data['lo']
         hi = e.data['hi']
@@ -93,7 +95,7 @@ def check(prog, res, tier):
             fails = []
             st = p.store
             for e in p.events:
-                if e.kind != 'slice' or e.func != unit_name:
+                if e.kind != 'slice' or not e.under(unit_name):
                     continue
                 lo, hi = e.data['lo'], e.data['hi']
                 if lo is None or hi is None:
@@ -191,7 +193,7 @@ def check(prog, res, tier):
                     ok = True
                     continue
                 # the argument must be data[cursor:] : find the slice operation that produced it
-                sev = [e for e in p.events if e.kind == 'slice' and e.func == dfi.short and first < e.seq < call.seq
+                sev = [e for e in p.events if e.kind == 'slice' and e.under(dfi.short) and first < e.seq < call.seq
                        and (e.data['result'] is arg or seqops_eq(p, e.data['result'], arg))]
                 for e in sev[-1:]:
                     lo, hi = e.data['lo'], e.data['hi']
@@ -210,7 +212,7 @@ def check(prog, res, tier):
         if p.outcome != 'return':
             return []
         st = p.store
-        rets = [e for e in p.events if e.kind == 'return' and e.func == dfi.short]
+        rets = [e for e in p.events if e.kind == 'return' and e.under(dfi.short)]
         if not rets:
             return [soft('return of the message parser not found')]
         loc = rets[-1].data['locals']
@@ -296,13 +298,13 @@ def check(prog, res, tier):
             src = p.interp.user['unit_args'][0][0].segs[0].src
             fails = []
             if mode == 'inv':
-                exits = [e for e in p.events if e.kind == 'loop-exit' and e.func == u.name and e.data['how'] == 'cond']
-                heads = [e for e in p.events if e.kind == 'loop-head' and e.func == u.name]
+                exits = [e for e in p.events if e.kind == 'loop-exit' and e.under(u.name) and e.data['how'] == 'cond']
+                heads = [e for e in p.events if e.kind == 'loop-head' and e.under(u.name)]
                 if not exits or not heads:
                     return []
                 curs = [g for k, g in heads[-1].data['gen'].items() if k[0] == 'local' and isinstance(g, IntV)]
             else:
-                ends = [e for e in p.events if e.kind == 'loop-end-snap' and e.func == u.name]
+                ends = [e for e in p.events if e.kind == 'loop-end-snap' and e.under(u.name)]
                 if not ends:
                     return []
                 names = chk_exit.names
@@ -372,14 +374,14 @@ def _locals_at(p, ev):
             break
         if e.kind == 'enter' and e.data['callee'] == ev.func:
             vals = list(e.data['locals'].values())
-        if e.kind == 'loop-head' and e.func == ev.func:
+        if e.kind == 'loop-head' and e.under(ev.func):
             vals = vals + [v for v in e.data['pre'].values() if v is not None]
     # plus every value assigned so far: collect from slice results and unpack results
     for e in p.events:
         if e.seq > ev.seq:
             break
-        if e.kind == 'ext-call' and e.func == ev.func and isinstance(e.data.get('result'), TupleV):
+        if e.kind == 'ext-call' and e.under(ev.func) and isinstance(e.data.get('result'), TupleV):
             vals.extend(e.data['result'].items)
-        if e.kind == 'slice' and e.func == ev.func:
+        if e.kind == 'slice' and e.under(ev.func):
             vals.append(e.data['result'])
     return vals
